@@ -1,13 +1,13 @@
 (* Lines.v — model of how a source line is split into its statement part and its comment:
      LineOjectFactory.PATTERN_LINE_PARTS / parse_line   (assembler/line_object/factory.py)
      the line.strip() of AssemblyFile.load_line_objects   (assembler/assembly_file.py)
-   The pattern (a possessive loop over: a character other than semicolon, vertical tab and the two quote characters | a
+   The pattern (a possessive loop over: a character other than semicolon and the two quote characters | a
    complete double-quoted string | a complete single-quoted string | a lone quote character; then optionally a
    semicolon and the rest of the line) is a left-to-right scanner:
    an ordinary character is statement text; a quote opens a string if the string is closed further on in the line
    (a backslash escapes the next character), and is ordinary text otherwise; the first semicolon outside a string ends
-   the statement, the rest is the comment; a vertical tab outside a string makes the pattern fail (statement and
-   comment are then both empty).  No proofs here. *)
+   the statement, the rest is the comment (since D59 a vertical tab is an ordinary white space character; the scanner
+   therefore always succeeds, the option type is kept for the runner).  No proofs here. *)
 From BA Require Export Base Expr Subst.
 Open Scope Z_scope.
 
@@ -24,7 +24,6 @@ Fixpoint close_quote (q : Z) (s : str) : option nat :=
   | [] => None
   | c :: r =>
     if c =? q then Some 1%nat
-    else if c =? c_vt then None
     else if c =? c_bs then
       match r with
       | [] => None
@@ -42,7 +41,6 @@ Fixpoint split_at (s : str) (skip : nat) (acc : str) : option (str * option str)
     | S k => split_at r k (c :: acc)
     | O =>
       if c =? c_semi then Some (rev acc, Some r)
-      else if c =? c_vt then None
       else if is_quote c then
         match close_quote c r with
         | Some n => split_at r n (c :: acc)
@@ -79,7 +77,6 @@ Fixpoint balanced_at (s : str) (skip : nat) : bool :=
     | S k => balanced_at r k
     | O =>
       if c =? c_semi then false
-      else if c =? c_vt then false
       else if is_quote c then
         match close_quote c r with
         | Some n => balanced_at r n
